@@ -98,7 +98,7 @@ pub(crate) fn to_string_array_node(
         }
         ArrayNode::Number(number) => format_number_locale(*number, locale),
         ArrayNode::String(value) => format!("\"{value}\""),
-        ArrayNode::Error(kind) => format!("{kind}"),
+        ArrayNode::Error(kind) => kind.to_localized_error_string(language),
         ArrayNode::Empty => "0".to_string(),
     }
 }
